@@ -289,7 +289,8 @@ def make_converter(ty: IntoConverter, handlers: ConverterHandlers = ConverterHan
         new_base = _ABSTRACT_MAPPING.get(base, base)  # type: ignore
         if inspect.isabstract(new_base):
             raise TypeError(f"No converter for abstract type '{ty}'")
-        return ScalarConverter(new_base, (str, os.PathLike), 'a path', 'paths', str)  # type: ignore
+        # (written as what the path says it is: `os.fspath` is `str` for pathlib's paths)
+        return ScalarConverter(new_base, (str, os.PathLike), 'a path', 'paths', os.fspath)  # type: ignore
 
     # tuple converter
     if issubclass(base, (tuple, t.Tuple)):
